@@ -67,7 +67,7 @@ CHECKS = {
     },
     "C03": {
         "technique": "TLA+ spec (Contrasts.tla: atom theory = Abs; transcription of pick_contrast / _get_encoding_groups / add_extra_terms / Model.eval = Impl) model checked with TLC over every ordered family of terms; every family replayed into design_matrices on complete-factorial data and decided by exact integer rank computations; recorded pick_contrasts calls judged by TLC against the spec action",
-        "text": "TLC enumerates every ordered family of <= 3 terms (<= 3 factors each) over {f,g,h,x} with and without intercept (4760), families with swapped factor orders over {f,g,h,x,z}, every family of <= 2 terms of arity <= 4 over four categorical factors (thorough: <= 4 terms), 38 spellings with operators incl. terms reached twice with their factors in another order, and proves that the modelled algorithm covers every required atom exactly once (the same model with the repairs switched off yields the pinned tree's counterexamples). Each exported family is built by the real code on replicated complete-factorial data with random level counts 2..4, as plain variables and as C/T/S/scale/center/bs/poly atoms with random factor order, on integer and on quarter-valued numeric columns, and checked with exact ranks: rank(X) = ncol(X) = sum over atoms of prod(levels-1)*widths and rank([X B]) = rank(B) for the full-indicator basis B built from the family. Recorded pick_contrasts calls of random builds must equal the spec action PickGroup (drift only).",
+        "text": "TLC enumerates every ordered family of <= 3 terms (<= 3 factors each) over {f,g,h,x} with and without intercept (4760), families with swapped factor orders over {f,g,h,x,z}, every family of <= 2 terms of arity <= 4 over four categorical factors (thorough: <= 4 terms), two-term families over six factors and over one factor with three numeric variables, 38 spellings with operators incl. terms reached twice with their factors in another order, and proves that the modelled algorithm covers every required atom exactly once (the same model with the repairs switched off yields the pinned tree's counterexamples). Each exported family is built by the real code on replicated complete-factorial data with random level counts 2..4, as plain variables and as C/T/S/scale/center/bs/poly atoms with random factor order, on integer and on quarter-valued numeric columns, and checked with exact ranks: rank(X) = ncol(X) = sum over atoms of prod(levels-1)*widths and rank([X B]) = rank(B) for the full-indicator basis B built from the family. Recorded pick_contrasts calls of random builds must equal the spec action PickGroup (drift only).",
         "ref": "DESIGN.md §3.5, §4 C03",
         "note": "Trusted: TLC, fv/rank.py (mod-p elimination with two primes, exact Bareiss on disagreement), numpy SVD with a gap test for float atoms (unclear gaps are counted, not judged), the data generator (replication >= 2 + 3 x numeric width, distinct numeric values). Families are sets of terms.",
     },
@@ -85,7 +85,7 @@ CHECKS = {
     },
     "C11": {
         "technique": "TLA+ spec (Scopes.tla: ordered scope chain, one action per probe) model checked with TLC over the complete configuration space; every terminal state replayed into design_matrices through synthetic caller modules with sentinels",
-        "text": "Complete enumeration: all 4608 configurations (which of data / built-ins / caller locals / caller globals / extra_namespace define the name; decoy definitions in the locals and globals of frames that env does not select and in Python's own built-in namespace (a name spelled like max / abs); role argument or callee; an argument written plain, back-quoted or as the value of a keyword argument, a callee plain or dotted with three or four components (a wrong turn a.b.f planted beside a.b.c.f); env 0..3). TLC checks FirstMatchWins, DecoysIrrelevant and NoShadowing on the probe-by-probe machine and exports the winner of each configuration; the harness builds four nested callers in four synthetic modules, plants distinguishable sentinels and observes which object reaches a recording function (argument role) or gets called (callee role, dotted via attribute access); an undefined name must raise. The built-in scope is probed with a name of each registry (transforms and encodings: 6912 replays), and a logging extra_namespace records whether the last scope was asked: Scopes_Trace checks that it is probed iff no earlier scope defines the name (path conformance).",
+        "text": "Complete enumeration: all 5376 configurations (which of data / built-ins / caller locals / caller globals / extra_namespace define the name; decoy definitions in the locals and globals of frames that env does not select and in Python's own built-in namespace (a name spelled like max / abs); role argument or callee; an argument written plain, back-quoted, as the value of a keyword argument or inside an expression that is such a value, a callee plain or dotted with three or four components (a wrong turn a.b.f planted beside a.b.c.f); env 0..3). TLC checks FirstMatchWins, DecoysIrrelevant and NoShadowing on the probe-by-probe machine and exports the winner of each configuration; the harness builds four nested callers in four synthetic modules, plants distinguishable sentinels and observes which object reaches a recording function (argument role) or gets called (callee role, dotted via attribute access); an undefined name must raise. The built-in scope is probed with a name of each registry (transforms and encodings: 8448 replays); bindings to None are bindings, and a logging extra_namespace records whether the last scope was asked: Scopes_Trace checks that it is probed iff no earlier scope defines the name (path conformance).",
         "ref": "DESIGN.md §3.9, §4 C11",
         "note": "Trusted: the sentinel harness fv/drivers/c11.py (a back-quoted name that is not an identifier cannot be a Python local: that scope is treated as not defining it).",
     },
